@@ -28,6 +28,11 @@ static void res_case(void) {
   unsigned da = 1 + rnd(3), db = 1 + rnd(3);
   if (chance(8)) da = 4;
   int shape = (int)rnd(3);
+  /* sometimes the operands are external polynomials built under the REVERSED variable order; the order is restored before the
+     operation, which is then the first call that sees them (sizes and main variables are asked of private twins) */
+  int stale = nv > 1 && chance(15);
+  char* tokA = 0; char* tokB = 0; lp_polynomial_t* TA = 0; lp_polynomial_t* TB = 0;
+  if (stale) hp_stale_begin();
   lp_polynomial_t* A = gen_main(nv, da, shape);
   lp_polynomial_t* B = gen_main(nv, db, shape);
   unsigned w = rnd(100);
@@ -49,12 +54,22 @@ static void res_case(void) {
     if (chance(30)) { lp_polynomial_t* t = A; A = B; B = t; }
     if (lp_polynomial_is_constant(A) || lp_polynomial_is_constant(B)) { lp_polynomial_delete(A); lp_polynomial_delete(B); return; }
   }
-  if (lp_polynomial_degree(A) + lp_polynomial_degree(B) > (nv == 1 ? 12u : 7u)) { lp_polynomial_delete(A); lp_polynomial_delete(B); return; }
-  if (lp_polynomial_top_variable(A) != hp_x[nv - 1] || lp_polynomial_top_variable(B) != hp_x[nv - 1]) { lp_polynomial_delete(A); lp_polynomial_delete(B); return; }
-  size_t dA = lp_polynomial_degree(A), dB = lp_polynomial_degree(B);
+  if (stale) {
+    TA = lp_polynomial_new_copy(A); TB = lp_polynomial_new_copy(B);
+    tokA = hp_tok(A); tokB = hp_tok(B);
+    lp_polynomial_set_external(A); lp_polynomial_set_external(B);
+    hp_stale_end();
+    lp_polynomial_ensure_order(TA); lp_polynomial_ensure_order(TB);
+  }
+  const lp_polynomial_t* QA = stale ? TA : A; const lp_polynomial_t* QB = stale ? TB : B;      /* whom to ask about A and B */
+  if (lp_polynomial_is_constant(QA) || lp_polynomial_is_constant(QB) ||
+      lp_polynomial_degree(QA) + lp_polynomial_degree(QB) > (nv == 1 ? 12u : 7u) ||
+      lp_polynomial_top_variable(QA) != hp_x[nv - 1] || lp_polynomial_top_variable(QB) != hp_x[nv - 1]) {
+    lp_polynomial_delete(A); lp_polynomial_delete(B); if (TA) { lp_polynomial_delete(TA); lp_polynomial_delete(TB); } free(tokA); free(tokB); return; }
+  size_t dA = lp_polynomial_degree(QA), dB = lp_polynomial_degree(QB);
   size_t sz = (dA < dB ? dA : dB) + 1;
 #ifdef LPV_HAVE_CXX_SHIM
-  if (chance(12) && dA >= 1 && dA <= 4) {      /* poly::discriminant(A) = resultant(A, A') / lc(A); 1 for degree 1 */
+  if (!stale && chance(12) && dA >= 1 && dA <= 4) {      /* poly::discriminant(A) = resultant(A, A') / lc(A); 1 for degree 1 */
     sb_begin("res", "disc"); sb_sp(); hp_ring_token(0); sb_sp(); sb_ulong(hp_x[nv - 1]); sb_sp(); sb_poly(A); sb_arrow();
     lp_polynomial_t* D = lpv_cxx_discriminant(A);
     sb_sp(); sb_poly(D); sb_emit();
@@ -63,11 +78,11 @@ static void res_case(void) {
   }
 #endif
   unsigned op = rnd(3);
-#define RHEAD(nm) sb_begin("res", nm); sb_sp(); hp_ring_token(0); sb_sp(); sb_ulong(hp_x[nv - 1]); sb_sp(); sb_poly(A); sb_sp(); sb_poly(B); sb_arrow()
+#define RHEAD(nm) sb_begin("res", nm); sb_sp(); hp_ring_token(0); sb_sp(); sb_ulong(hp_x[nv - 1]); sb_sp(); if (tokA) sb_str(tokA); else sb_poly(A); sb_sp(); if (tokB) sb_str(tokB); else sb_poly(B); sb_arrow()
   if (op == 0) {
     lp_polynomial_t* R = hp_dest(0, (int)rnd(3));
     RHEAD("resultant");
-    { unsigned al = rnd(6);        /* output aliased with an input (on a copy), or a pre-used object */
+    { unsigned al = rnd(6); if (stale && al < 2) al = 3;        /* output aliased with an input (on a copy), or a pre-used object */
       if (al == 0) { lp_polynomial_t* Ac = lp_polynomial_new_copy(A); lp_polynomial_resultant(Ac, Ac, B); sb_sp(); sb_poly(Ac); lp_polynomial_delete(Ac); }
       else if (al == 1) { lp_polynomial_t* Bc = lp_polynomial_new_copy(B); lp_polynomial_resultant(Bc, A, Bc); sb_sp(); sb_poly(Bc); lp_polynomial_delete(Bc); }
       else if (al == 2) { lp_polynomial_t* O = hp_dest(0, 2); lp_polynomial_resultant(O, A, B); sb_sp(); sb_poly(O); lp_polynomial_delete(O); }
@@ -85,6 +100,7 @@ static void res_case(void) {
     free(out);
   }
   lp_polynomial_delete(A); lp_polynomial_delete(B);
+  if (TA) { lp_polynomial_delete(TA); lp_polynomial_delete(TB); } free(tokA); free(tokB);
 }
 
 int main(int argc, char** argv) {
